@@ -12,8 +12,12 @@ def run(tier, seed, replay=None):
     tu = cfront.TU(CSRC)
     X = cext.make_externals()
     fs_common.add_fs_obligations(ck, tu, X, "C11")
+    from checks import replay_py, pyload, bounds_common
+    symmod = pyload.module("digital_rf_hdf5")
+    bounds_common.merge_bounds(ck, symmod, 4 if tier == "thorough" else 3)
+    bounds_common.dir_bounds(ck, symmod, 3)
+    ck.replayers["bounds."] = replay_sessions
     ck.discharge()
-    from checks import replay_py, pyload
     n = 600 if tier == "thorough" else 60
     r = replay_py.run_driver("session_history.py", {"seed": seed, "cases": n, "max_failures": 3}, timeout=3000)
     ck.bounded_runs.append(("bounded.sessions_and_directories", "%d scenarios: 2-4 sessions over 1-3 top-level directories (one file period never in two directories), "
@@ -22,6 +26,15 @@ def run(tier, seed, replay=None):
     mod = pyload.module("digital_rf_hdf5", symbolic=False)
     for nm in ("DigitalRFReader.__init__", "DigitalRFReader.get_bounds", "DigitalRFReader.read"):
         ck.add_function(pyload.source_info(mod, nm))
-    ck.assumptions += ["reader-side union over sessions / top-level directories is covered by the bounded differential only (labelled bounded)"]
+    ck.assumptions += ["reader-side union over sessions / top-level directories: the merge of the bounds is under contract; read / get_continuous_blocks over several directories are covered by the bounded differential only (labelled bounded)"]
     ck.extra["explanation"] = "effect-order / frame obligations evaluated at every file-system and HDF5 call site on every explored path of the writer (loop-free functions: complete path enumeration)"
     return ck
+
+
+def replay_sessions(o, model):
+    from checks import replay_py
+    r = replay_py.run_driver("session_history.py", {"seed": 3, "cases": 120, "max_failures": 1}, timeout=1500)
+    if r["failures"]:
+        f = r["failures"][0]
+        return True, "sessions on the real writer/reader: %s\n  case: %s" % (f["what"], str(f.get("case"))[:500]), f
+    return False, "no deviation among %d session scenarios" % r["cases"], None
